@@ -8,7 +8,8 @@ Open Scope Z_scope.
 Inductive cmd :=
 | CSwap (d : Z) | CDup (d : Z) | CSpill (d : Z) | CRestore (op : Z) | CRelease (live : list Z)
 | CReorder (dry : bool) (ops : list Z) | CPop (n : Z) | CPush (x : Z) | CSwapOp (x : Z) | CDupOp (x : Z)
-| CEmit (invoke : bool) (ops live : list Z) | CPopMany (xs : list Z).
+| CEmit (invoke : bool) (ops live : list Z) | CPopMany (xs : list Z)
+| CInst (kind code : Z) (ops outs live : list Z) (next_term skip_pops : bool).
 
 Record world := mkW { w_a : list ainstr; w_m : list Z; w_s : sp; w_d : spilled; w_costs : list Z }.
 
@@ -37,6 +38,8 @@ Definition run_cmd (classes : list (Z * Z)) (c : cmd) (w : world) : res world :=
                  | Some dp => match sp_swap false dp a m s with Ok (a', m', s', c') => Ok (mkW a' m' s' d (costs ++ [c'])) | Err e => Err e end
                  end
   | CEmit inv ops live => match emit_inputs inv ops live a m s d with Ok (a', m', s', d') => Ok (mkW a' m' s' d' costs) | Err e => Err e end
+  | CInst kind code ops outs live nt sk =>
+    match gen_inst (equiv_of classes) kind code ops outs live nt sk a m s d with Ok (a', m', s', d') => Ok (mkW a' m' s' d' costs) | Err e => Err e end
   | CPopMany xs => match popmany xs a m s with Ok (a', m', s') => Ok (mkW a' m' s' d costs) | Err e => Err e end
   | CDupOp x => match spec_get_depth m x with
                 | None => Err AssertFail
